@@ -14,6 +14,7 @@ unique key had moved to another node were told nothing); the model reflects the 
 compared with the real class on random keyed lists in every run (`corr:rlm`).
 -/
 import GE.Model.Rlm
+import Std.Data.String.ToNat
 
 namespace GE.Rlm
 
@@ -234,5 +235,434 @@ theorem uniq_single (keys : List String) (i : Nat) (k : String) (hk : keys[i]? =
   have := (mem_groupOrder keys g).mp hg
   cases he
   omega
+
+
+/-! ## fresh names -/
+
+def nm (key : String) (n : Nat) : String := key ++ "--" ++ toString n
+
+theorem nm_inj {key : String} {a b : Nat} (h : nm key a = nm key b) : a = b := by
+  have h1 := String.ext_iff.mp h
+  simp only [nm, String.toList_append] at h1
+  have h2 := List.append_cancel_left h1
+  exact Nat.repr_injective (String.toList_inj.mp h2)
+
+theorem freshFrom_spec (key : String) (used : List String) : ∀ (fuel inc : Nat),
+    nm key (freshFrom key used fuel inc) ∉ used ∨
+      (freshFrom key used fuel inc = inc + fuel ∧ ∀ j, inc ≤ j → j < inc + fuel → nm key j ∈ used)
+  | 0, inc => Or.inr ⟨rfl, fun j h1 h2 => by omega⟩
+  | fuel + 1, inc => by
+    simp only [freshFrom]
+    by_cases h : (key ++ "--" ++ toString inc) ∈ used
+    · simp only [h, if_true]
+      rcases freshFrom_spec key used fuel (inc + 1) with h1 | ⟨h1, h2⟩
+      · exact Or.inl h1
+      · refine Or.inr ⟨by omega, fun j hj1 hj2 => ?_⟩
+        by_cases hj : j = inc
+        · subst hj; exact h
+        · exact h2 j (by omega) (by omega)
+    · simp only [h, if_false]; exact Or.inl h
+
+/-- the search of `updateKeys` for a free name always ends on a name that is not taken (pigeonhole over the names taken) -/
+theorem fresh_not_used (key : String) (used : List String) (inc : Nat) :
+    nm key (freshFrom key used (used.length + 1) inc) ∉ used := by
+  rcases freshFrom_spec key used (used.length + 1) inc with h | ⟨_, h⟩
+  · exact h
+  · exfalso
+    let L := (List.range (used.length + 1)).map (fun j => nm key (inc + j))
+    have hnd : L.Nodup := by
+      show List.Pairwise (· ≠ ·) _
+      rw [List.pairwise_map]
+      exact List.Pairwise.imp (fun {a b} hab he => hab (by have := nm_inj he; omega)) List.nodup_range
+    have hsub : L ⊆ used := by
+      intro x hx
+      simp only [L, List.mem_map, List.mem_range] at hx
+      obtain ⟨j, hj, rfl⟩ := hx
+      exact h (inc + j) (by omega) (by omega)
+    have := hnd.length_le_of_subset hsub
+    simp [L] at this
+    omega
+
+/-! ## the state of `updateKeys` while it renames -/
+
+/-- `fin p`: position `p` has its final key -/
+structure StateOk (keys : List String) (fin : Nat → Prop) (used out : List String) : Prop where
+  len : out.length = keys.length
+  inUsed : ∀ p x, fin p → out[p]? = some x → x ∈ used
+  inj : ∀ p q x, fin p → fin q → out[p]? = some x → out[q]? = some x → p = q
+  rest : ∀ p, ¬ fin p → out[p]? = keys[p]?
+
+theorem StateOk.congr {keys : List String} {fin fin' : Nat → Prop} {used out : List String} (h : ∀ p, fin p ↔ fin' p)
+    (s : StateOk keys fin used out) : StateOk keys fin' used out := by
+  have : fin = fin' := funext fun p => propext (h p)
+  subst this; exact s
+
+theorem renameGroup_ok (keys : List String) (key : String) : ∀ (ps : List Nat) (inc : Nat) (used out : List String) (fin : Nat → Prop),
+    StateOk keys fin used out → ps.Nodup → (∀ i ∈ ps, ¬ fin i ∧ i < out.length) →
+    StateOk keys (fun p => fin p ∨ p ∈ ps) (renameGroup key ps inc used out).1 (renameGroup key ps inc used out).2
+  | [], _, _, _, _, s, _, _ => s.congr (by simp)
+  | i :: r, inc, used, out, fin, s, hnd, hps => by
+    simp only [renameGroup]
+    have hfresh := fresh_not_used key used inc
+    simp only [nm] at hfresh
+    obtain ⟨hir, hr⟩ := List.nodup_cons.mp hnd
+    obtain ⟨hfi, hlt⟩ := hps i List.mem_cons_self
+    let name := key ++ "--" ++ toString (freshFrom key used (used.length + 1) inc)
+    have hset : ∀ p, (setAt out i name)[p]? = if i = p then some name else out[p]? := by
+      intro p; simp only [setAt, List.getElem?_set, hlt, if_true]
+    have s1 : StateOk keys (fun p => fin p ∨ p = i) (name :: used) (setAt out i name) := by
+      refine ⟨by simp [setAt, s.len], ?_, ?_, ?_⟩
+      · intro p x hp hx
+        rw [hset] at hx
+        by_cases hpi : i = p
+        · simp only [hpi, if_true] at hx; cases hx; exact List.mem_cons_self
+        · simp only [hpi, if_false] at hx
+          rcases hp with hp | hp
+          · exact List.mem_cons_of_mem _ (s.inUsed p x hp hx)
+          · exact absurd hp.symm hpi
+      · intro p q x hp hq hx hy
+        rw [hset] at hx hy
+        by_cases hpi : i = p <;> by_cases hqi : i = q
+        · omega
+        · simp only [hpi, if_true] at hx; simp only [hqi, if_false] at hy; cases hx
+          rcases hq with hq | hq
+          · exact absurd (s.inUsed q _ hq hy) hfresh
+          · exact absurd hq.symm hqi
+        · simp only [hqi, if_true] at hy; simp only [hpi, if_false] at hx; cases hy
+          rcases hp with hp | hp
+          · exact absurd (s.inUsed p _ hp hx) hfresh
+          · exact absurd hp.symm hpi
+        · simp only [hpi, if_false] at hx; simp only [hqi, if_false] at hy
+          rcases hp with hp | hp
+          · rcases hq with hq | hq
+            · exact s.inj p q x hp hq hx hy
+            · exact absurd hq.symm hqi
+          · exact absurd hp.symm hpi
+      · intro p hp
+        simp only [not_or] at hp
+        rw [hset]; simp only [Ne.symm hp.2, if_false]
+        exact s.rest p hp.1
+    have := renameGroup_ok keys key r (freshFrom key used (used.length + 1) inc) (name :: used) (setAt out i name) _ s1 hr
+      (fun j hj => ⟨fun h => by
+          rcases h with h | h
+          · exact (hps j (List.mem_cons_of_mem _ hj)).1 h
+          · subst h; exact hir hj,
+        by rw [setAt_length]; exact (hps j (List.mem_cons_of_mem _ hj)).2⟩)
+    exact this.congr (fun p => by
+      simp only [List.mem_cons]
+      constructor
+      · rintro ((h | h) | h)
+        · exact Or.inl h
+        · exact Or.inr (Or.inl h)
+        · exact Or.inr (Or.inr h)
+      · rintro (h | h | h)
+        · exact Or.inl (Or.inl h)
+        · exact Or.inl (Or.inr h)
+        · exact Or.inr h)
+
+theorem positions_nodup (k : String) (keys : List String) : (positions k keys).Nodup :=
+  List.Pairwise.filter _ List.nodup_range
+
+theorem renameAll_ok (keys : List String) : ∀ (gs used out : List String) (fin : Nat → Prop),
+    StateOk keys fin used out → gs.Nodup → (∀ g ∈ gs, ∀ i ∈ positions g keys, ¬ fin i) →
+    StateOk keys (fun p => fin p ∨ ∃ g ∈ gs, p ∈ positions g keys) (renameAll keys gs used out).1 (renameAll keys gs used out).2
+  | [], _, _, _, s, _, _ => s.congr (by simp)
+  | g :: r, used, out, fin, s, hnd, hg => by
+    simp only [renameAll]
+    obtain ⟨hgr, hr⟩ := List.nodup_cons.mp hnd
+    have s1 := renameGroup_ok keys g (positions g keys) 0 used out fin s (positions_nodup g keys)
+      (fun i hi => ⟨hg g List.mem_cons_self i hi, by
+        rw [s.len]
+        have := mem_positions.mp hi
+        by_cases hlt : i < keys.length
+        · exact hlt
+        · simp [List.getElem?_eq_none (by omega : keys.length ≤ i)] at this⟩)
+    have := renameAll_ok keys r _ _ _ s1 hr (fun g' hg' i hi h => by
+      rcases h with h | h
+      · exact hg g' (List.mem_cons_of_mem _ hg') i hi h
+      · have h1 := mem_positions.mp hi
+        have h2 := mem_positions.mp h
+        rw [h1] at h2; cases h2; exact hgr hg')
+    exact this.congr (fun p => by
+      simp only [List.mem_cons, exists_eq_or_imp]
+      constructor
+      · rintro ((h | h) | h)
+        · exact Or.inl h
+        · exact Or.inr (Or.inl h)
+        · exact Or.inr (Or.inr h)
+      · rintro (h | h | h)
+        · exact Or.inl (Or.inl h)
+        · exact Or.inl (Or.inr h)
+        · exact Or.inr h)
+
+
+/-! ## the groups are listed once -/
+
+theorem sharedInOrder_nodup : ∀ (keys seen acc : List String), acc.Nodup → (sharedInOrder keys seen acc).Nodup
+  | [], _, _, h => h
+  | x :: r, seen, acc, h => by
+    simp only [sharedInOrder]
+    by_cases hs : x ∈ seen
+    · simp only [hs, if_true]
+      by_cases ha : x ∈ acc
+      · simp only [ha, if_true]; exact sharedInOrder_nodup r seen acc h
+      · simp only [ha, if_false]
+        exact sharedInOrder_nodup r seen (acc ++ [x]) (List.nodup_append.mpr ⟨h, by simp, fun a ha' b hb => by
+          simp only [List.mem_singleton] at hb; subst hb; exact fun he => ha (he ▸ ha')⟩)
+    · simp only [hs, if_false]; exact sharedInOrder_nodup r (x :: seen) acc h
+
+theorem insertSorted_nodup (n : Nat) (s : String) : ∀ (l : List (Nat × String)), (l.map (·.2)).Nodup → s ∉ l.map (·.2) →
+    ((insertSorted n s l).map (·.2)).Nodup
+  | [], _, _ => by simp [insertSorted]
+  | (m, t) :: r, h, hs => by
+    simp only [insertSorted]
+    by_cases hlt : n < m
+    · simp only [hlt, if_true, List.map_cons]
+      exact List.nodup_cons.mpr ⟨hs, h⟩
+    · simp only [hlt, if_false, List.map_cons]
+      simp only [List.map_cons, List.mem_cons, not_or] at hs
+      obtain ⟨ht, hr⟩ := List.nodup_cons.mp h
+      refine List.nodup_cons.mpr ⟨?_, insertSorted_nodup n s r hr hs.2⟩
+      intro hm
+      obtain ⟨x, hx, hxe⟩ := List.mem_map.mp hm
+      rcases (mem_insertSorted n s r x).mp hx with rfl | hx
+      · exact hs.1 (by simpa using hxe)
+      · exact ht (List.mem_map.mpr ⟨x, hx, hxe⟩)
+
+theorem foldl_idx_nodup : ∀ (sh : List String) (acc : List (Nat × String)), sh.Nodup → (acc.map (·.2)).Nodup →
+    (∀ k ∈ sh, k ∉ acc.map (·.2)) →
+    ((sh.foldl (fun acc k => match arrayIndex? k with | some n => insertSorted n k acc | none => acc) acc).map (·.2)).Nodup
+  | [], _, _, h, _ => h
+  | x :: r, acc, hsh, hacc, hdis => by
+    simp only [List.foldl_cons]
+    obtain ⟨hxr, hr⟩ := List.nodup_cons.mp hsh
+    cases hx : arrayIndex? x with
+    | none => exact foldl_idx_nodup r acc hr hacc (fun k hk => hdis k (List.mem_cons_of_mem _ hk))
+    | some n =>
+      refine foldl_idx_nodup r _ hr (insertSorted_nodup n x acc hacc (hdis x List.mem_cons_self)) (fun k hk hm => ?_)
+      obtain ⟨y, hy, hye⟩ := List.mem_map.mp hm
+      rcases (mem_insertSorted n x acc y).mp hy with rfl | hy
+      · have : x = k := by simpa using hye
+        exact hxr (this ▸ hk)
+      · exact hdis k (List.mem_cons_of_mem _ hk) (List.mem_map.mpr ⟨y, hy, hye⟩)
+
+theorem groupOrder_nodup (keys : List String) : (groupOrder keys).Nodup := by
+  have hsh : (sharedInOrder keys [] []).Nodup := sharedInOrder_nodup keys [] [] List.nodup_nil
+  simp only [groupOrder]
+  refine List.nodup_append.mpr ⟨foldl_idx_nodup _ [] hsh (by simp) (by simp), List.Pairwise.filter _ hsh, ?_⟩
+  intro a ha b hb hab
+  subst hab
+  obtain ⟨⟨n, k⟩, hm, rfl⟩ := List.mem_map.mp ha
+  have := (mem_foldl_idx (sharedInOrder keys [] []) [] k).mp ⟨n, hm⟩
+  simp only [List.not_mem_nil, exists_false, false_or] at this
+  simp only [List.mem_filter] at hb
+  cases hk : arrayIndex? k with
+  | none => simp [hk] at this
+  | some m => simp [hk] at hb
+
+/-! ## the keys made unique are pairwise distinct -/
+
+theorem two_le_count_of_two_positions {k : String} : ∀ {keys : List String} {p q : Nat}, p < q → keys[p]? = some k → keys[q]? = some k →
+    2 ≤ count k keys
+  | [], _, _, _, h, _ => by simp at h
+  | x :: r, 0, q + 1, _, hp, hq => by
+    simp only [List.getElem?_cons_zero, Option.some.injEq] at hp
+    simp only [List.getElem?_cons_succ] at hq
+    have := count_pos_of_mem (List.mem_of_getElem? hq)
+    rw [count_cons]; simp [hp]; omega
+  | x :: r, p + 1, q + 1, hlt, hp, hq => by
+    simp only [List.getElem?_cons_succ] at hp hq
+    have := two_le_count_of_two_positions (by omega : p < q) hp hq
+    rw [count_cons]; omega
+
+/-- every position is final after `updateKeys` -/
+theorem uniq_state (keys : List String) :
+    ∀ (p q : Nat) (x : String), (uniq keys)[p]? = some x → (uniq keys)[q]? = some x → p = q := by
+  let fin0 : Nat → Prop := fun p => ∃ k, keys[p]? = some k ∧ count k keys = 1
+  have s0 : StateOk keys fin0 (keys.filter (fun k => count k keys = 1)) keys := by
+    refine ⟨rfl, ?_, ?_, fun _ _ => rfl⟩
+    · rintro p x ⟨k, hk, hc⟩ hx
+      rw [hk] at hx; cases hx
+      exact List.mem_filter.mpr ⟨List.mem_of_getElem? hk, by simp [hc]⟩
+    · rintro p q x ⟨k, hk, hc⟩ _ hx hy
+      rw [hk] at hx; cases hx
+      rcases Nat.lt_trichotomy p q with h | h | h
+      · have := two_le_count_of_two_positions h hk hy; omega
+      · exact h
+      · have := two_le_count_of_two_positions h hy hk; omega
+  have s := renameAll_ok keys (groupOrder keys) _ keys fin0 s0 (groupOrder_nodup keys) (by
+    rintro g hg i hi ⟨k, hk, hc⟩
+    have h1 := mem_positions.mp hi
+    rw [hk] at h1
+    have hkg : k = g := by simpa using h1
+    subst hkg
+    have := (mem_groupOrder keys k).mp hg
+    omega)
+  have hall : ∀ p, p < keys.length → (fin0 p ∨ ∃ g ∈ groupOrder keys, p ∈ positions g keys) := by
+    intro p hp
+    have hk : keys[p]? = some keys[p] := List.getElem?_eq_getElem hp
+    have hpos := count_pos_of_mem (List.mem_of_getElem? hk)
+    by_cases h1 : count keys[p] keys = 1
+    · exact Or.inl ⟨_, hk, h1⟩
+    · exact Or.inr ⟨keys[p], (mem_groupOrder keys _).mpr (by omega), mem_positions.mpr hk⟩
+  intro p q x hx hy
+  have hlen := uniq_length keys
+  have hp : p < keys.length := by
+    by_cases h : p < keys.length
+    · exact h
+    · rw [List.getElem?_eq_none (by omega)] at hx; cases hx
+  have hq : q < keys.length := by
+    by_cases h : q < keys.length
+    · exact h
+    · rw [List.getElem?_eq_none (by omega)] at hy; cases hy
+  exact s.inj p q x (hall p hp) (hall q hq) hx hy
+
+theorem uniq_nodup (keys : List String) : (uniq keys).Nodup := by
+  show List.Pairwise (· ≠ ·) _
+  rw [List.pairwise_iff_getElem]
+  intro i j hi hj hlt he
+  have := uniq_state keys i j (uniq keys)[i] (List.getElem?_eq_getElem hi) (by rw [he]; exact List.getElem?_eq_getElem hj)
+  omega
+
+
+/-! ## what a reused node is told -/
+
+theorem renamed_mem (keys : List String) (p : Nat) (hp : p < keys.length) (h2 : 2 ≤ count keys[p] keys) :
+    (uniq keys)[p]'(by rw [uniq_length]; exact hp) ∈ renamed keys := by
+  simp only [renamed, List.mem_filterMap, List.mem_range]
+  refine ⟨p, hp, ?_⟩
+  have h1 : keys[p]?.getD "" = keys[p] := by simp [List.getElem?_eq_getElem hp]
+  rw [h1]
+  simp only [show count keys[p] keys > 1 from h2, if_true]
+  exact List.getElem?_eq_getElem _
+
+theorem mem_uniq_cases (keys : List String) (x : String) (hx : x ∈ uniq keys) :
+    x ∈ renamed keys ∨ (∃ p : Nat, keys[p]? = some x ∧ count x keys = 1) := by
+  obtain ⟨p, hp⟩ := List.mem_iff_getElem?.mp hx
+  have hlt : p < keys.length := by
+    by_cases h : p < keys.length
+    · exact h
+    · rw [List.getElem?_eq_none (by rw [uniq_length]; omega)] at hp; cases hp
+  have hk : keys[p]? = some keys[p] := List.getElem?_eq_getElem hlt
+  have hpos := count_pos_of_mem (List.mem_of_getElem? hk)
+  by_cases h1 : count keys[p] keys = 1
+  · have := uniq_single keys p _ hk h1
+    rw [hp] at this; cases this
+    exact Or.inr ⟨p, hk, h1⟩
+  · have := renamed_mem keys p hlt (by omega)
+    have he : (uniq keys)[p]'(by rw [uniq_length]; exact hlt) = x := by
+      have := List.getElem?_eq_getElem (l := uniq keys) (i := p) (by rw [uniq_length]; exact hlt)
+      rw [hp] at this; exact (Option.some.inj this).symm
+    rw [he] at this
+    exact Or.inl this
+
+/-- the update tree marks every position whose key changed: an unmarked position, or one whose subtree leaves the key field alone,
+has the key it had -/
+def KeysAgree (oldKeys newKeys : List String) (tree : List Mark) : Prop :=
+  ∀ i : Nat, (tree[i]?.getD Mark.none = Mark.none ∨ tree[i]?.getD Mark.none = Mark.sub false) → newKeys[i]? = oldKeys[i]?
+
+theorem marks_length (oldKeys newKeys : List String) (tree : List Mark) : (marks oldKeys newKeys tree).length = newKeys.length := by
+  simp only [marks]; split <;> simp
+
+/-- an item that is not told `true` and gets a node of the old list gets the node of its own position -/
+theorem marking_sound (oldKeys newKeys : List String) (tree : List Mark) (hag : KeysAgree oldKeys newKeys tree)
+    (i j : Nat) (m : Mark) (hm : (marks oldKeys newKeys tree)[i]? = some m) (hne : m ≠ Mark.all)
+    (hr : reuse oldKeys newKeys i = some j) : j = i := by
+  have hi : i < newKeys.length := by
+    by_cases h : i < newKeys.length
+    · exact h
+    · rw [List.getElem?_eq_none (by rw [marks_length]; omega)] at hm; cases hm
+  have hiu : i < (uniq newKeys).length := by rw [uniq_length]; exact hi
+  have hku : (uniq newKeys)[i]? = some (uniq newKeys)[i] := List.getElem?_eq_getElem hiu
+  -- the reused position
+  have hreuse : ∀ k, (uniq newKeys)[i]? = some k → (uniq oldKeys).idxOf k < oldKeys.length ∧ j = (uniq oldKeys).idxOf k := by
+    intro k hk
+    simp only [reuse, hk] at hr
+    by_cases h : (uniq oldKeys).idxOf k < oldKeys.length
+    · simp only [h, if_true, Option.some.injEq] at hr; exact ⟨h, hr.symm⟩
+    · simp only [h, if_false] at hr; cases hr
+  -- the tree leaves position i (or at least its key) alone, and its unique key is not a renamed one
+  have hcase : (tree[i]?.getD Mark.none = Mark.none ∨ tree[i]?.getD Mark.none = Mark.sub false) ∧
+      (newKeys = oldKeys ∨ ((uniq newKeys)[i] ∉ renamed oldKeys ∧ (uniq newKeys)[i] ∉ renamed newKeys)) := by
+    simp only [marks] at hm
+    split at hm
+    · rename_i hnu
+      simp only [List.getElem?_map, List.getElem?_range hi, Option.map_some, Option.some.injEq] at hm
+      have hg : (uniq newKeys)[i]?.getD "" = (uniq newKeys)[i] := by simp [hku]
+      rw [hg] at hm
+      by_cases hren : (uniq newKeys)[i] ∈ renamed oldKeys ∨ (uniq newKeys)[i] ∈ renamed newKeys
+      · simp only [hren, if_true] at hm; exact absurd hm.symm hne
+      · simp only [hren, if_false] at hm
+        simp only [not_or] at hren
+        refine ⟨?_, Or.inr hren⟩
+        cases ht : tree[i]?.getD Mark.none with
+        | none => exact Or.inl rfl
+        | all => rw [ht] at hm; exact absurd hm.symm hne
+        | sub b =>
+          cases b with
+          | true => rw [ht] at hm; exact absurd hm.symm hne
+          | false => exact Or.inr rfl
+    · rename_i hnu
+      have hall : ∀ p : Nat, tree[p]?.getD Mark.none = Mark.none ∨ tree[p]?.getD Mark.none = Mark.sub false := by
+        intro p
+        cases hp : tree[p]? with
+        | none => exact Or.inl rfl
+        | some t =>
+          have hmem : t ∈ tree := List.mem_of_getElem? hp
+          have : ¬ (t = Mark.all ∨ t = Mark.sub true) := by
+            intro h
+            apply hnu
+            simp only [List.any_eq_true, Bool.or_eq_true, decide_eq_true_eq]
+            exact ⟨t, hmem, h⟩
+          simp only [Option.getD_some]
+          cases t with
+          | none => exact Or.inl rfl
+          | all => exact absurd (Or.inl rfl) this
+          | sub b =>
+            cases b with
+            | true => exact absurd (Or.inr rfl) this
+            | false => exact Or.inr rfl
+      exact ⟨hall i, Or.inl (List.ext_getElem? fun p => hag p (hall p))⟩
+  obtain ⟨hti, hkeys⟩ := hcase
+  obtain ⟨hlt, hj⟩ := hreuse _ hku
+  rcases hkeys with heq | ⟨hro, hrn⟩
+  · -- the lists of keys are the same: the unique keys are, and they are pairwise distinct
+    subst heq
+    rw [hj]; exact (uniq_nodup newKeys).idxOf_getElem i hiu
+  · -- the key of position i occurs once in the new list ...
+    have hk0 : newKeys[i]? = some newKeys[i] := List.getElem?_eq_getElem hi
+    have hpos := count_pos_of_mem (List.mem_of_getElem? hk0)
+    have h1 : count newKeys[i] newKeys = 1 := by
+      by_cases h : count newKeys[i] newKeys = 1
+      · exact h
+      · exact absurd (renamed_mem newKeys i hi (by omega)) hrn
+    have hu := uniq_single newKeys i _ hk0 h1
+    rw [hku] at hu
+    have hkk : (uniq newKeys)[i] = newKeys[i] := Option.some.inj hu
+    rw [hkk] at hro hlt hj
+    -- ... and, being unmarked, is the key position i had in the old list, where it occurs once too
+    have hold : oldKeys[i]? = some newKeys[i] := by rw [← hag i hti]; exact hk0
+    have hmem : newKeys[i] ∈ uniq oldKeys := List.idxOf_lt_length_iff.mp (by rw [uniq_length]; exact hlt)
+    rcases mem_uniq_cases oldKeys _ hmem with h | ⟨_, _, hc⟩
+    · exact absurd h hro
+    · have hio : i < (uniq oldKeys).length := by
+        rw [uniq_length]
+        by_cases h : i < oldKeys.length
+        · exact h
+        · rw [List.getElem?_eq_none (by omega)] at hold; cases hold
+      have huo := uniq_single oldKeys i _ hold hc
+      rw [List.getElem?_eq_getElem hio] at huo
+      rw [hj, ← Option.some.inj huo]
+      exact (uniq_nodup oldKeys).idxOf_getElem i hio
+
+/-- non-vacuity of the hypothesis: a list with a repeated key whose first occurrence changes (that `marks` tells the second item `true`,
+although its own key and subtree are untouched, and that the third keeps its node is what the `rlm` stream evaluates on the compiled model) -/
+example : KeysAgree ["x", "x", "y"] ["z", "x", "y"] [Mark.all, Mark.none, Mark.sub false] := by
+  intro i h
+  match i, h with
+  | 0, h => simp at h
+  | 1, _ => rfl
+  | 2, _ => rfl
+  | n + 3, _ => rfl
 
 end GE.Rlm
